@@ -27,6 +27,14 @@ func propC02(c *Ctx) {
 	c.ruleC10CopyReset()
 	c.ruleC10Cycle() // a legal (acyclic) macro graph must not be rejected, a cyclic one must
 	c.ruleUnquote()  // a quoted and a bare rendering of one parameter must read the same
+	// the catalog's annotations and descriptions are the model's texts passed through two normalisers: they must
+	// collapse line ends and ASCII blanks only (a Unicode space inside an annotation is text)
+	c.ruleNormalisers()
+	// two directives of one resource may come in either order (Protocol/Method, Query/Request ...): a set that one
+	// handler fills must not be a prerequisite of a sibling's handler in the same pass
+	c.nsOnlyFields = true
+	c.ruleCollectBeforeUse()
+	c.nsOnlyFields = false
 }
 
 // ---------- parameter keys ----------
@@ -573,6 +581,7 @@ func propC05(c *Ctx) {
 	c.ruleTagPriority("C05-TAG-PRIORITY")
 	c.ruleValidatorsComplete()
 	c.ruleUpdateKeepsEntry()
+	c.ruleTagListDistinct()
 	c.ruleResponseCodeGate("C05-RESPONSE-CODE-GATE")
 	c.ruleJsightFirst() // the catalog's jsight version is only ever set by a JSIGHT directive, which must be there and first
 }
@@ -657,6 +666,142 @@ func (c *Ctx) ruleUpdateKeepsEntry() {
 	}
 	if n == 0 {
 		r.Undecided("C05-UPDATE-KEEPS-ENTRY", "sites", "no Update closure found", "")
+	}
+}
+
+// ruleTagListDistinct: the list of tags a Tags directive resolves to feeds both sides of the tag<->interaction
+// cross-reference; a name that occurs twice in it lists the interaction twice under the tag and the tag twice on the
+// interaction (F23). Every function of package catalog that collects entries of the Tags table into a slice it returns
+// must therefore append an entry only on a path on which a membership test of a set made for this call, keyed by the
+// entry's name, has missed, and must record the name in that set in the same iteration.
+func (c *Ctx) ruleTagListDistinct() {
+	r := c.R
+	r.Rule("C05-TAG-LIST-DISTINCT", "a function that collects entries looked up in Catalog.Tags into a slice (append in a loop) appends only after a miss in a set local to the call, keyed by the name that is looked up, and stores the name into that set before the append (or after a membership predicate over the list itself has said no): no tag occurs twice in the list, however the names are arranged", 1)
+	n := 0
+	for _, f := range c.libFns() {
+		pk := f.Pkg
+		if pk.Types.Name() != "catalog" || strings.HasSuffix(pk.Fset.Position(f.Decl.Pos()).Filename, "_gen.go") {
+			continue
+		}
+		cf := c.cfgOf(f)
+		ast.Inspect(f.Decl.Body, func(nd ast.Node) bool {
+			loop, ok := nd.(*ast.RangeStmt)
+			if !ok {
+				return true
+			}
+			// in the loop: t, ok := <..>.Tags.Get(key) ... dst = append(dst, t)
+			var getCall *ast.CallExpr
+			var tObj types.Object
+			ast.Inspect(loop.Body, func(m ast.Node) bool {
+				as, ok := m.(*ast.AssignStmt)
+				if !ok || len(as.Rhs) != 1 || len(as.Lhs) < 1 {
+					return true
+				}
+				call, ok := ast.Unparen(as.Rhs[0]).(*ast.CallExpr)
+				if !ok || len(call.Args) != 1 {
+					return true
+				}
+				cal := callee(pk, call)
+				sel, isSel := ast.Unparen(call.Fun).(*ast.SelectorExpr)
+				if cal == nil || (cal.Name() != "Get" && cal.Name() != "GetValue") || !isSel {
+					return true
+				}
+				if fld := fieldSel(pk, sel.X); fld == nil || fld.Name() != "Tags" {
+					return true
+				}
+				if id := identOf(as.Lhs[0]); id != nil {
+					getCall, tObj = call, objOf(pk, id)
+				}
+				return true
+			})
+			if getCall == nil || tObj == nil {
+				return true
+			}
+			var app *ast.AssignStmt
+			ast.Inspect(loop.Body, func(m ast.Node) bool {
+				as, ok := m.(*ast.AssignStmt)
+				if !ok || len(as.Rhs) != 1 {
+					return true
+				}
+				call, ok := ast.Unparen(as.Rhs[0]).(*ast.CallExpr)
+				if !ok || len(call.Args) != 2 {
+					return true
+				}
+				if id, ok := call.Fun.(*ast.Ident); !ok || id.Name != "append" {
+					return true
+				}
+				if aid := identOf(call.Args[1]); aid != nil && pk.TypesInfo.Uses[aid] == tObj {
+					app = as
+				}
+				return true
+			})
+			if app == nil {
+				return true
+			}
+			n++
+			key := f.Name() + " | list of looked-up tags"
+			keyStr := keyString(pk, getCall.Args[0])
+			// a call-local set with a miss fact on the same key, and a store of the key that dominates the append
+			ok = false
+			why := "the entry is appended without a membership test on the names collected so far"
+			ast.Inspect(loop.Body, func(m ast.Node) bool {
+				st, isAs := m.(*ast.AssignStmt)
+				if !isAs || ok {
+					return true
+				}
+				for _, l := range st.Lhs {
+					b, k, isIdx := indexOn(pk, l)
+					if !isIdx || keyString(pk, k) != keyStr {
+						continue
+					}
+					if !c.mapIsCallLocal(f, b, map[types.Object]bool{}) {
+						why = "the set of names seen is not made for this call"
+						continue
+					}
+					miss, kills := missFact(pk, f.Decl.Body, accessPath(pk, b), keyStr, map[types.Object]bool{})
+					if !cf.establishedAt(app, miss, kills) {
+						why = "the entry is appended on a path on which the name may already have been seen"
+						continue
+					}
+					if !cf.dominatedBy(app, st) {
+						why = "the name is not recorded as seen before the entry is appended"
+						continue
+					}
+					ok = true
+				}
+				return true
+			})
+			if !ok {
+				// or: a membership predicate over the list itself (contains(list, x) / slices.Contains...) has said no
+				dst := identOf(app.Lhs[0])
+				if dst != nil && cf.establishedAt(app, func(cond ast.Expr, holds bool) bool {
+					call, isCall := ast.Unparen(cond).(*ast.CallExpr)
+					if !isCall || holds {
+						return false
+					}
+					hasDst, hasElem := false, false
+					for _, a := range call.Args {
+						if id := identOf(a); id != nil && pk.TypesInfo.Uses[id] == objOf(pk, dst) {
+							hasDst = true
+						} else if keyString(pk, a) == keyStr || (identOf(a) != nil && pk.TypesInfo.Uses[identOf(a)] == tObj) {
+							hasElem = true
+						}
+					}
+					return hasDst && hasElem
+				}, nil) {
+					ok = true
+				}
+			}
+			if ok {
+				r.Ok("C05-TAG-LIST-DISTINCT", key, "appended only after a miss in a set local to the call, keyed by the looked-up name, which is recorded first", c.pos(app.Pos()))
+			} else {
+				r.Bad("C05-TAG-LIST-DISTINCT", key, why+": a tag named twice by one Tags directive (in any arrangement) lists the interaction twice and is listed twice on it", c.pos(app.Pos()))
+			}
+			return true
+		})
+	}
+	if n == 0 {
+		r.Undecided("C05-TAG-LIST-DISTINCT", "sites", "no function collects looked-up tags into a list: the resolver of the Tags directive is no longer recognised", "")
 	}
 }
 
